@@ -4,7 +4,7 @@
    call / fn_accepts2 / powf oracle. *)
 From Coq Require Import String Ascii List ZArith Bool Lia Floats.SpecFloat.
 Require Import Blots.Num Blots.gen.Builtins Blots.Ast Blots.Value Blots.Outcome Blots.Binop Blots.BinopSpec.
-Require Import Blots.proofs.ValueInd Blots.proofs.Order.
+Require Import Blots.proofs.ValueInd Blots.proofs.Order Blots.proofs.C11ExprSym.
 Import ListNotations.
 Local Open Scope list_scope.
 
@@ -251,19 +251,20 @@ End Broadcast.
 
 (* ================================================================== symmetry of Value::equals
    on well-formed values: the IndexMap invariant (record keys unique) everywhere below; NaN is
-   allowed.  This discharges [eq_sym_on] (the list∘scalar arm computes v.equals(&scalar)
+   allowed, function values are allowed (their equality is equality of parameter lists and AST
+   bodies, symmetric by C11ExprSym.expr_eqb_sym; captured scopes are not compared).  This discharges [eq_sym_on] (the list∘scalar arm computes v.equals(&scalar)
    whichever side the list is on). *)
 Fixpoint wf_value (v : value) : bool :=
   match v with
   | VNum _ | VBool _ | VNull | VStr _ | VBuiltin _ => true
   | VList l => forallb wf_value l
   | VRec r => nodup_keys r && forallb (fun kv => wf_value (snd kv)) r
-  | VLam _ _ _ _ => false            (* function values: see expr_eqb (AST equality); not needed by C11's pools *)
+  | VLam _ _ _ _ => true
   | VSpread v => wf_value v
   end.
 
 Lemma builtin_eqb_sym a b : builtin_eqb a b = builtin_eqb b a.
-Proof. destruct a, b; reflexivity. Qed.
+Proof. exact (builtin_eqb_sym' a b). Qed.
 
 Lemma equals_sym_wf a : forall b, wf_value a = true -> wf_value b = true -> equals a b = equals b a.
 Proof.
@@ -301,6 +302,7 @@ Proof.
     + rewrite (Hdir r r2 Hnd1 Hnd2 Hlen Hsym E1) in E2. discriminate.
     + rewrite (Hdir r2 r Hnd2 Hnd1 (eq_sym Hlen)) in E1; [discriminate| |exact E2].
       intros k x y Hx Hy. symmetry. now apply (Hsym k y x).
+  - intros _ _. cbn. now rewrite (list_eqb_sym lamarg_eqb lamarg_eqb_sym ar ar2), (expr_eqb_sym bd bd2).
   - intros _ _. cbn. apply builtin_eqb_sym.
   - cbn [wf_value]. intros H1 H2.
     destruct v as [| | |s1|l1|r1| | |], v2 as [| | |s2|l2|r2'| | |]; try reflexivity.
